@@ -160,6 +160,10 @@ type C15Session struct {
 	// How the session ends: "close" = the runtime end closes the connection, "stop" = the
 	// plugin calls Stop(). (A session whose configuration failed has ended already.)
 	End string `json:"end"`
+	// StartCtx: the context the plugin hands to stub.Start() for this session: "" = Background,
+	// "cancel" = cancelled right after Start() returned (the `defer cancel()` pattern),
+	// "deadline" = a deadline that expires shortly after Start() returned.
+	StartCtx string `json:"start_ctx,omitempty"`
 }
 
 // C15Case: one plugin value on one stub instance, connected 1..3 times in a row.
@@ -462,11 +466,12 @@ func genSession(t *rapid.T, ent typeEntry, c *C15Case, nsess int) C15Session {
 	impl := ent.Mask
 	unimpl := validMask &^ impl
 	s := C15Session{
-		Config:  rapid.OneOf(rapid.Just(""), gen.Str(), rapid.Just("logLevel: debug\nevents: [a, b]\n")).Draw(t, "config"),
-		Runtime: rapid.SampledFrom([]string{"containerd", "cri-o", "verif", ""}).Draw(t, "runtime"),
-		Version: rapid.OneOf(rapid.StringMatching(`v?[0-9]\.[0-9]{1,2}(\.[0-9])?`), rapid.Just("")).Draw(t, "version"),
-		SyncUpd: -1,
-		End:     rapid.SampledFrom([]string{"close", "stop"}).Draw(t, "end"),
+		Config:   rapid.OneOf(rapid.Just(""), gen.Str(), rapid.Just("logLevel: debug\nevents: [a, b]\n")).Draw(t, "config"),
+		Runtime:  rapid.SampledFrom([]string{"containerd", "cri-o", "verif", ""}).Draw(t, "runtime"),
+		Version:  rapid.OneOf(rapid.StringMatching(`v?[0-9]\.[0-9]{1,2}(\.[0-9])?`), rapid.Just("")).Draw(t, "version"),
+		SyncUpd:  -1,
+		End:      rapid.SampledFrom([]string{"close", "stop"}).Draw(t, "end"),
+		StartCtx: rapid.SampledFrom([]string{"", "", "", "", "", "", "", "", "", "", "", "", "", "", "", "", "cancel", "cancel", "cancel", "cancel", "cancel", "cancel"}).Draw(t, "startctx"),
 		// the request timeout the runtime end announces: none, a very short one, usual ones
 		ReqTimeoutMs: rapid.SampledFrom([]int64{0, 40, 500, 2000, 2000, 2000, 6000, 6000}).Draw(t, "reqtimeout"),
 	}
@@ -577,6 +582,9 @@ func genSession(t *rapid.T, ent typeEntry, c *C15Case, nsess int) C15Session {
 	nreq := rapid.IntRange(lo, hi).Draw(t, "nreq")
 	if nchunks > 0 && !s.SyncFinal {
 		nreq = 0 // the runtime went away before the synchronization was complete
+	}
+	if s.StartCtx == "cancel" && maybe(t, "startdeadline", 12) {
+		s.StartCtx = "deadline" // rarer: the harness has to wait for it to expire
 	}
 	for i := 0; i < nreq; i++ {
 		var e api.Event
@@ -801,7 +809,15 @@ type session struct {
 	// whether the stub's close notification arrived.
 	closePeer func()
 	end       func(stopFirst bool) bool
+	// the context handed to Start() and its cancel function
+	startCtx    context.Context
+	startCancel context.CancelFunc
 }
+
+// startDeadline is the deadline of a "deadline" start context: Start() has to get through
+// registration and configuration within it (if the machine is too slow for that the case is
+// not judged), and the harness waits for it to expire before it sends requests.
+const startDeadline = 100 * time.Millisecond
 
 func socketPair() (local, remote net.Conn, err error) {
 	sp, err := nrinet.NewSocketPair()
@@ -823,7 +839,7 @@ func socketPair() (local, remote net.Conn, err error) {
 }
 
 // newSession connects the stub (created on first use) to a fresh raw runtime peer and starts it.
-func newSession(ent typeEntry, si *stubInst) (*session, error) {
+func newSession(ent typeEntry, si *stubInst, startCtx string) (*session, error) {
 	local, remote, err := socketPair()
 	if err != nil {
 		return nil, err
@@ -897,8 +913,16 @@ func newSession(ent typeEntry, si *stubInst) (*session, error) {
 	s.plugin = api.NewPluginClient(rpcc)
 
 	startDone := make(chan struct{})
+	sctx, scancel := context.Background(), context.CancelFunc(func() {})
+	switch startCtx {
+	case "cancel":
+		sctx, scancel = context.WithCancel(context.Background())
+	case "deadline":
+		sctx, scancel = context.WithTimeout(context.Background(), startDeadline)
+	}
+	s.startCtx, s.startCancel = sctx, scancel
 	go func() {
-		s.startErr <- si.st.Start(context.Background())
+		s.startErr <- si.st.Start(sctx)
 		close(startDone)
 	}()
 
@@ -918,6 +942,7 @@ func newSession(ent typeEntry, si *stubInst) (*session, error) {
 			return notified
 		}
 		ended = true
+		defer scancel()
 		if stopFirst {
 			si.st.Stop()
 		}
@@ -988,6 +1013,9 @@ func validCase(c C15Case) string {
 	for _, s := range c.Sessions {
 		if s.End != "close" && s.End != "stop" {
 			return "unknown session end"
+		}
+		if s.StartCtx != "" && s.StartCtx != "cancel" && s.StartCtx != "deadline" {
+			return "unknown start context"
 		}
 		if s.ReqTimeoutMs < 0 {
 			return "negative request timeout"
@@ -1169,7 +1197,7 @@ func runC15Once(c C15Case) (out ev.Outcome, overloaded bool) {
 	cr.classes[fmt.Sprintf("sessions:%d", len(c.Sessions))] = true
 
 	for k := range c.Sessions {
-		s, err := newSession(ent, cr.si)
+		s, err := newSession(ent, cr.si, c.Sessions[k].StartCtx)
 		if err != nil {
 			// infrastructure (socketpair, fds) or stub.New refusing a generated type
 			return cr.finish(ev.Outcome{Excluded: "session setup failed: " + err.Error()}), false
@@ -1384,7 +1412,26 @@ func (cr *caseRun) runSession(k int, s *session) (verdict, string) {
 		return fail("Configure (handler returned %s) subscribed %s, want %s", maskStr(api.EventMask(sc.CfgMask)), maskStr(got), maskStr(wantMask))
 	}
 	if startErr != nil {
+		if sc.StartCtx == "deadline" && errors.Is(startErr, context.DeadlineExceeded) {
+			return vSlow, "the start context expired before Start() was through"
+		}
 		return fail("Configure succeeded with events=%s but Start returned %v", maskStr(wantMask), startErr)
+	}
+	// The context of Start() bounds registration and configuration; the plugin is done with
+	// it now. Requests and events of this session must be delivered all the same.
+	switch sc.StartCtx {
+	case "cancel":
+		s.startCancel()
+		classes["startctx:cancelled-after-start"] = true
+	case "deadline":
+		select {
+		case <-s.startCtx.Done():
+		case <-time.After(stepTimeout):
+			return vSlow, "start context did not expire"
+		}
+		classes["startctx:deadline-expired-after-start"] = true
+	default:
+		classes["startctx:background"] = true
 	}
 	if cfgClass == "cfg:subset" {
 		cr.hadSub = true
@@ -2130,6 +2177,18 @@ func TestExh_C15(t *testing.T) {
 	}
 	for ti, ent := range registry {
 		implEv, unimplEv := bitsOf(ent.Mask), bitsOf(validMask&^ent.Mask)
+		{
+			// the plugin cancels the context it gave to Start() once Start() has returned (and, for
+			// every 16th type, lets a deadline expire): both sessions of one stub
+			s1 := withSync(sess(0, "stop", okReqs, failReqs), true, false, one)
+			s1.StartCtx = "cancel"
+			s2 := withSync(sess(0, "close", failReqs, okReqs), true, ti%2 == 0, one, one)
+			s2.StartCtx = "cancel"
+			if ti%16 == 5 {
+				s2.StartCtx = "deadline"
+			}
+			runOne(mk(ti, s1, s2))
+		}
 		lo := evbit(implEv[0])
 		if ent.HasSync {
 			// the Synchronize dimension: one message; then on one stub: split -> unsplit ->
@@ -2279,7 +2338,7 @@ func TestExh_C15(t *testing.T) {
 		}
 	}
 	r.SetExtra("exhaustive", map[string]any{
-		"subdomain": "every generated plugin type (512: 128 handler sets x with/without Configure x with/without Synchronize) x each of the 13 event kinds (succeeding and failing handler; documented message shape, container present/absent the other way round, pod/container/resources absent and present-but-empty; the failing handler's error in every form x sentinel / status code, round-robin over types and kinds; related message parts: update resources equal to the container's own, overhead equal to resources and to the pod's own, container id equal to pod id, every request repeated verbatim); updates naming the request's own container (create / update / stop, with and without adjustment); for every eighth handler set with Synchronize handler a restart storm of 50 sessions on one stub (25 times: connection dropped right after a More=true message, then a complete synchronization); six cases with a handler taking 2.3 s under an announced request timeout of 6 s (first session; third session after sessions announcing 40 ms and none); for the types without Synchronize handler: Configure returning 0, the implemented mask, each single implemented event, implemented+each single unimplemented event, and, for every third handler set, about twenty masks using bits 13..31 (all ones, the sign bit, bits 13..30; alone and on top of handled / unhandled events); per type restart sequences on one stub (3 connections; with Configure: subset -> 0 -> complementary subset, complementary subset -> subset -> implemented mask, rejected -> error -> implemented mask); for the types with Synchronize handler one stub synchronized six times in a row: split -> one message -> cut short after 3 messages -> split with failing handler -> cut short after 1 message -> one message",
+		"subdomain": "every generated plugin type (512: 128 handler sets x with/without Configure x with/without Synchronize) x each of the 13 event kinds (succeeding and failing handler; documented message shape, container present/absent the other way round, pod/container/resources absent and present-but-empty; the failing handler's error in every form x sentinel / status code, round-robin over types and kinds; related message parts: update resources equal to the container's own, overhead equal to resources and to the pod's own, container id equal to pod id, every request repeated verbatim); updates naming the request's own container (create / update / stop, with and without adjustment); for every eighth handler set with Synchronize handler a restart storm of 50 sessions on one stub (25 times: connection dropped right after a More=true message, then a complete synchronization); per type two sessions whose Start() context is cancelled (every 16th type: expires) right after Start() returned; six cases with a handler taking 2.3 s under an announced request timeout of 6 s (first session; third session after sessions announcing 40 ms and none); for the types without Synchronize handler: Configure returning 0, the implemented mask, each single implemented event, implemented+each single unimplemented event, and, for every third handler set, about twenty masks using bits 13..31 (all ones, the sign bit, bits 13..30; alone and on top of handled / unhandled events); per type restart sequences on one stub (3 connections; with Configure: subset -> 0 -> complementary subset, complementary subset -> subset -> implemented mask, rejected -> error -> implemented mask); for the types with Synchronize handler one stub synchronized six times in a row: split -> one message -> cut short after 3 messages -> split with failing handler -> cut short after 1 message -> one message",
 		"types":     len(registry),
 		"cases":     cases,
 		"sessions":  sessions,
